@@ -20,7 +20,7 @@ Norm(cfg, i) == [raises |-> "no", wild |-> FALSE, doc |-> i.doc,
 \* ---- named deviations of the as-built code (exact wrong outcomes) ------------------------------------
 \* Each has an abstract trigger and either the exact wrong outcome or (wild) "anything may come back for inputs of
 \* this class".  known_findings.txt lists the open ones; Enabled is that list.
-Devs == {"numpydoc_no_types_unparsable",   \* wild : numpydoc with emit_types=False, or an untyped parameter, emits no `name : type` line; the parser raises / returns garbage
+Devs == {"numpydoc_no_types_unparsable",   \* wild : numpydoc with emit_types=False and a return entry: the return section has no type line; the parser raises / returns garbage
          "gn_return_only_mangled",         \* wild (return entry): Google/NumPy docstring with a return but no parameters: the return type is mis-sliced
          "code_default_unparsable",        \* wild : a code-quoted default carried in the prose is not recovered (raises ValueError or is split)
          "str_default_with_dot_truncated", \* wild : a string default containing a full stop is cut at it ("~/data/x.txt" -> "~/data/x", ".txt" lands in the description)
@@ -51,8 +51,9 @@ FiredP(en, cfg, p) == {d \in en : \/ (d = "none_default_as_str" /\ cfg.edd /\ p.
 
 AsBuilt(en, cfg, i) ==
   LET ents == {i.params[k] : k \in 1..Len(i.params)} \cup (IF i.ret = NoRet THEN {} ELSE {i.ret})
-      wildNp == "numpydoc_no_types_unparsable" \in en /\ cfg.style = "numpydoc"
-                /\ (~cfg.et \/ \E k \in 1..Len(i.params) : i.params[k].typ = "absent")
+      \* (parameters whose type is not written were affected too until the name line / description repair; what is left is the
+      \* RETURN entry: without its type line the section is read as two parameters called "Returns" and "-------")
+      wildNp == "numpydoc_no_types_unparsable" \in en /\ cfg.style = "numpydoc" /\ ~cfg.et /\ i.ret # NoRet
       retOnly == "gn_return_only_mangled" \in en /\ cfg.style \in {"google", "numpydoc"} /\ i.ret # NoRet /\ i.params = <<>>
       wildCode == "code_default_unparsable" \in en /\ cfg.edd /\ \E p \in ents : p.def = "code"
       wildDot == "str_default_with_dot_truncated" \in en /\ cfg.edd /\ \E p \in ents : p.def = "str_dot"
